@@ -17,9 +17,12 @@ func init() {
 			"(R1) in mainHandler.handle the authenticator and the handler are reachable only across the origin decision (no Origin, or one of the four documented acceptance comparisons), route match, effective method, a non-nil authentication result, module readiness and a non-nil handler; " +
 			"(R2) the decision table of authenticateRequest over required x granted permission x method class x credential outcome (finite-valuation propagation with a tracked token object): a token is returned only if the statement allows it, and the method class selects the same side for required and granted permission; " +
 			"(R3) credential sources: Self only in dev mode, bridge permission only for the bridge address, an API-key token only on a map hit that is not expired and under the key lock, a session token only on a live map hit, keys are stored only past all parse/expiry rejections and the key map is cleared on every update, parseAPIPermission never yields Self; " +
-			"(R4) every constant-bound slice of a request-derived string is dominated by a sufficient length test; (R5) method-class table of getEffectiveMethod and the Read/Write permission lookups. " +
+			"(R4) every constant-bound slice of a request-derived string is dominated by a sufficient length test; (R5) method-class table of getEffectiveMethod and the Read/Write permission lookups; " +
+			"(R6) per-key state is per key: every pointer stored into an API-key token or the key map inside updateAPIKeys' loop (the token, its expiry time) is allocated anew between any two executions of the store, so no two keys share an expiry. " +
+			"(R7) lock pairing over the functions of package(s) api: " + lockRuleText + ". " +
 			"NOT decided: net/http and gorilla/mux behaviour, the header grammar beyond guards, session TTL timing.",
-		Rules: []ruleFn{c12R1, c12R2, c12R3, c12R4, c12R5},
+		Rules: []ruleFn{c12R1, c12R2, c12R3, c12R4, c12R5, c12R6,
+			lockRuleFor("C12-R7", 12, []string{"api"}, []string{}, map[string]string{})},
 	})
 }
 
@@ -880,4 +883,66 @@ func devModeGuard() Guard {
 		}
 		return vpath(call.Call.Value) == "global:api.devMode"
 	}}
+}
+
+// freshPerExecution: v is a heap allocation that is executed again between any
+// two executions of `use` (so two executions never see the same object).
+func freshPerExecution(fn *ssa.Function, use ssa.Instruction, v ssa.Value) (bool, string) {
+	al, ok := v.(*ssa.Alloc)
+	if !ok {
+		return false, "not a local allocation: " + leafDesc(v)
+	}
+	isUse := func(in ssa.Instruction) bool { return in == use }
+	isAlloc := func(in ssa.Instruction) bool { return in == ssa.Instruction(al) }
+	if ReachInstr(fn, use, isUse, isAlloc) != nil {
+		return false, "the store can execute twice without the variable " + al.Comment + " being allocated in between (declared outside the loop)"
+	}
+	return true, ""
+}
+
+func c12R6(c *Ctx, r *Report) {
+	const rule = "C12-R6"
+	r.SetFloor(rule, 2)
+	fn := c.Func("api.updateAPIKeys")
+	if fn == nil {
+		r.Undecided(rule, "api.updateAPIKeys", "anchor function missing")
+		return
+	}
+	ord := map[string]int{}
+	eachInstr(fn, func(in ssa.Instruction) {
+		var val ssa.Value
+		var what string
+		switch x := in.(type) {
+		case *ssa.Store:
+			fr, ok := fieldOfAddr(x.Addr)
+			if !ok || fr.Owner != "api.AuthToken" {
+				return
+			}
+			if _, isPtr := x.Val.Type().Underlying().(*types.Pointer); !isPtr {
+				return
+			}
+			val, what = x.Val, "AuthToken."+fr.Name
+		case *ssa.MapUpdate:
+			if !strings.HasSuffix(vpath(x.Map), "api.apiKeys") {
+				return
+			}
+			val, what = x.Value, "apiKeys entry"
+		default:
+			return
+		}
+		if isNilConst(val) {
+			return
+		}
+		cons := ordinal(ord, "api.updateAPIKeys / pointer stored to "+what)
+		okAll, why := true, ""
+		for _, l := range c.Leaves(val) {
+			if isNilConst(l) {
+				continue
+			}
+			if ok, w := freshPerExecution(fn, in, l); !ok {
+				okAll, why = false, w
+			}
+		}
+		r.Check(okAll, rule, cons, "allocated anew for every key", "API keys share one object: "+why+"; every key inherits the value written for the last one (an expired key stays valid)", c.Pos(in.Pos()))
+	})
 }
